@@ -131,6 +131,13 @@ func genEmNormal(r *Rng) *Case3 {
 		c.P0 = append(c.P0, fss([]float64{float64(r.Range(-8, 24)) / 4, float64(r.Range(4, 16)) / 4}))
 	}
 	c.Bound = fs([]float64{0.0078125, 0.5, 1, 1.5}[r.Intn(4)])
+	// admissible initial parameters only (quantifier of the property): with an initial sigma below SigmaMin the first,
+	// constrained M-step may lower the likelihood of the inadmissible start
+	for k := range c.P0 {
+		if c.P0[k][1].f() < c.Bound.f() {
+			c.P0[k][1] = c.Bound
+		}
+	}
 	c.MaxSteps = []int{1, 2, 3}[r.Intn(3)]
 	c.Eps = fs([]float64{0, 1e-6, 1e-2, -1}[r.Intn(4)])
 	c.Tag = fmt.Sprintf("emnormal|k%d|ms%d", c.K, c.MaxSteps)
